@@ -438,9 +438,9 @@ theorem mgrNotices_inv {cfg : IdCfg} {s : LSys} (h : LInv cfg s) :
 
 /-- **Every phase of every call** keeps the invariant and satisfies `PhaseFacts`; every call has a phase; a
 `connect` writes a CONNECT_V2 in each of its phases. -/
-theorem lstep_facts {cfg : IdCfg} {s : LSys} (h : LInv cfg s) (op : LOp) :
+theorem lstep_facts {cfg : IdCfg} {s : LSys} (h : LInv cfg s) (op : LOp) (ht : op.timely = true) :
     (∀ x ∈ lstep cfg s op, PhaseFacts cfg s.cl.created x) ∧ lstep cfg s op ≠ [] ∧
-    (∀ a, op = .connect a → ∀ x ∈ lstep cfg s op, x.1.req.isSome = true) := by
+    (op.isConnect = true → ∀ x ∈ lstep cfg s op, x.1.req.isSome = true) := by
   have hsub : ∀ sop : Op, (∀ x ∈ (if s.cl.connected = true then subPhases s sop else [(ncPhase s.cl, s.mg)]),
       PhaseFacts cfg s.cl.created x) ∧
       (if s.cl.connected = true then subPhases s sop else [(ncPhase s.cl, s.mg)]) ≠ [] := by
@@ -460,7 +460,7 @@ theorem lstep_facts {cfg : IdCfg} {s : LSys} (h : LInv cfg s) (op : LOp) :
       exact ⟨fun x hx => by rw [List.mem_singleton.1 hx]; exact nc_facts h, by simp⟩
   cases op with
   | sub sop =>
-    refine (fun (p : _ ∧ _) => ⟨p.1, p.2, fun a ha => by cases ha⟩) ?_
+    refine (fun (p : _ ∧ _) => ⟨p.1, p.2, fun ha => by simp [LOp.isConnect] at ha⟩) ?_
     cases sop with
     | reconnect =>
       simp only [lstep]
@@ -481,15 +481,16 @@ theorem lstep_facts {cfg : IdCfg} {s : LSys} (h : LInv cfg s) (op : LOp) :
     simp only [lstep]
     have := connectOp_facts h a
     exact ⟨fun x hx => by rw [List.mem_singleton.1 hx]; exact this.1, by simp,
-      fun _ _ x hx => by rw [List.mem_singleton.1 hx]; exact this.2⟩
+      fun _ x hx => by rw [List.mem_singleton.1 hx]; exact this.2⟩
   | disconnect =>
     simp only [lstep]
     exact ⟨fun x hx => by rw [List.mem_singleton.1 hx]; exact facts_of_inv (disconnectOp_inv h) rfl, by simp,
-      fun a ha => by cases ha⟩
-  | lostRead n => exact ⟨(hlose n).1, (hlose n).2, fun a ha => by cases ha⟩
-  | lostSend n => exact ⟨(hlose n).1, (hlose n).2, fun a ha => by cases ha⟩
+      fun ha => by simp [LOp.isConnect] at ha⟩
+  | lostRead n => exact ⟨(hlose n).1, (hlose n).2, fun ha => by simp [LOp.isConnect] at ha⟩
+  | lostSend n => exact ⟨(hlose n).1, (hlose n).2, fun ha => by simp [LOp.isConnect] at ha⟩
+  | connectLate a => simp [LOp.timely] at ht
   | ctlLost k l n =>
-    refine (fun (p : _ ∧ _) => ⟨p.1, p.2, fun a ha => by cases ha⟩) ?_
+    refine (fun (p : _ ∧ _) => ⟨p.1, p.2, fun ha => by simp [LOp.isConnect] at ha⟩) ?_
     simp only [lstep]
     by_cases hc : s.cl.connected = true
     · simp only [hc, if_true]
@@ -506,7 +507,8 @@ theorem lstep_facts {cfg : IdCfg} {s : LSys} (h : LInv cfg s) (op : LOp) :
     simp only [lstep]
     exact ⟨fun x hx => by
       rw [List.mem_singleton.1 hx]
-      exact facts_of_inv (x := (okPhase s.cl, _)) (mgrNotices_inv h) rfl, by simp, fun a ha => by cases ha⟩
+      exact facts_of_inv (x := (okPhase s.cl, _)) (mgrNotices_inv h) rfl, by simp,
+      fun ha => by simp [LOp.isConnect] at ha⟩
 
 /-- the state a call leaves behind is the state after its last phase -/
 theorem lafter_mem (s : LSys) : ∀ (xs : List (LPhase × Mgr)), xs ≠ [] →
@@ -517,19 +519,20 @@ theorem lafter_mem (s : LSys) : ∀ (xs : List (LPhase × Mgr)), xs ≠ [] →
     obtain ⟨x, hx, he⟩ := lafter_mem s (y :: r) (by simp)
     exact ⟨x, by simp [hx], by simpa [lafter] using he⟩
 
-theorem lstep_inv {cfg : IdCfg} {s : LSys} (h : LInv cfg s) (op : LOp) :
+theorem lstep_inv {cfg : IdCfg} {s : LSys} (h : LInv cfg s) (op : LOp) (ht : op.timely = true) :
     LInv cfg (lafter s (lstep cfg s op)) ∧ (lafter s (lstep cfg s op)).cl.created = s.cl.created := by
-  obtain ⟨hf, hne, _⟩ := lstep_facts h op
+  obtain ⟨hf, hne, _⟩ := lstep_facts h op ht
   obtain ⟨x, hx, he⟩ := lafter_mem s _ hne
   rw [he]
   exact ⟨(hf x hx).inv, (hf x hx).same⟩
 
-theorem lrun_inv {cfg : IdCfg} : ∀ (ops : List LOp) {s : LSys}, LInv cfg s →
+theorem lrun_inv {cfg : IdCfg} : ∀ (ops : List LOp) {s : LSys}, LInv cfg s → ops.all LOp.timely = true →
     LInv cfg (lrun cfg s ops) ∧ (lrun cfg s ops).cl.created = s.cl.created
-  | [], _, h => ⟨h, rfl⟩
-  | op :: ops, s, h => by
-    obtain ⟨h1, h2⟩ := lstep_inv h op
-    obtain ⟨h3, h4⟩ := lrun_inv ops h1
+  | [], _, h, _ => ⟨h, rfl⟩
+  | op :: ops, s, h, ht => by
+    simp only [List.all_cons, Bool.and_eq_true] at ht
+    obtain ⟨h1, h2⟩ := lstep_inv h op ht.1
+    obtain ⟨h3, h4⟩ := lrun_inv ops h1 ht.2
     exact ⟨h3, by rw [← h2]; exact h4⟩
 
 /-! ### from the invariant to what can be observed -/
@@ -573,12 +576,15 @@ theorem lifeC02_ok (U : List Int) {cfg : IdCfg} {cr : Int} {x : LPhase × Mgr} (
 
 /-- the C06 clauses of one phase -/
 theorem lifeC06_ok (U : List Int) {cfg : IdCfg} {cr : Int} {x : LPhase × Mgr} (hx : PhaseFacts cfg cr x) (op : LOp)
-    (hop : ∀ a, op = .connect a → x.1.req.isSome = true) :
+    (hop : op.isConnect = true → x.1.req.isSome = true) :
     ∀ c ∈ lifeC06 cfg cr op (lobs U x), c.2 = true := by
   have h1 : ((!op.isConnect || (lobs U x).req.isSome) &&
       ((lobs U x).req.isNone || (lobs U x).req == some cr)) = true := by
     have ha : (!op.isConnect || (lobs U x).req.isSome) = true := by
-      cases op <;> first | rfl | (simp only [LOp.isConnect, Bool.not_true, Bool.false_or]; exact hop _ rfl)
+      by_cases hc : op.isConnect = true
+      · simp only [hc, Bool.not_true, Bool.false_or]; exact hop hc
+      · have : op.isConnect = false := by simpa using hc
+        simp [this]
     have hb : ((lobs U x).req.isNone || (lobs U x).req == some cr) = true := by
       cases hq : x.1.req with
       | none => simp [lobs, hq]
